@@ -686,7 +686,12 @@ func (rdb *RDB) get(key []byte, ctx *Context) (data []byte, err error) {
 	cachedEntry, ok := ctx.cache[string(key)]
 
 	if ok {
-		data = cachedEntry.data
+		// The entry may have been stored by a closest-key lookup: then it describes the
+		// largest key not above this one. It is this key's data only if that key is this
+		// very key; otherwise this key is known to be absent.
+		if bytes.Equal(cachedEntry.key, key) {
+			data = cachedEntry.data
+		}
 	} else {
 		data, err = rdb.db.Get(rdb.readOptions, key)
 		if err != nil {
